@@ -104,6 +104,12 @@ def writer_table(ctx, b):
 def _field_of(a):
     fs = mir.subterms(a, lambda x: x[0] == 'fld' and util.is_param(x[1], 1))
     names = sorted({x[2] for x in fs})
+    if len(names) > 1:
+        # an argument that mentions several fields prints one of them and uses the others as parameters (a count passed to
+        # take(), say): the printed one is the array that is iterated
+        arrays = [n for n in names if n in ('offsets', 'sign_corrections')]
+        if len(arrays) == 1:
+            return arrays[0]
     return names[0] if len(names) == 1 else str(names)
 
 
